@@ -133,14 +133,21 @@ def cases(tier, seed, phase):
     for j in range(1500 if tier == 'quick' else 30000):
         def mk(j=j):
             rng = rng_for(seed, 'c06u', j)
-            what = rng.choice(['ext', 'b64', 'split', 'mail', 'xreply'])
+            what = rng.choice(['ext', 'b64', 'split', 'mail', 'xreply', 'wsgiraw'])
+            if what == 'wsgiraw':
+                opts = [o for o in ('norcpt', 'noehlo') if rng.random() < 0.4]
+                data = b'Subject: x\r\n\r\n' + bytes(rng.choice(b'abc\r\n.') for _ in range(rng.randint(0, 30)))
+                if rng.random() < 0.5:
+                    opts.append('cl=%d' % rng.randint(0, len(data)))
+                return {'kind': 'unit', 'what': 'wsgiraw', 'opts': opts, 'sender': gen_addr(rng, True), 'rcpts': [gen_addr(rng, True) for _ in range(rng.choice([1, 2]))],
+                        'data': data.hex()}
             if what == 'xreply':
                 return {'kind': 'unit', 'what': 'xreply', 'code': rng.choice(['250', '250', '451', '550', '535', '421', '200', '599']),
                         'msg': rng.choice(['2.6.0 Message accepted', '', 'say "hi"', 'back\\slash', 'semi; colon = x', ' leading space', '5.7.1 nope; command="X"', 'tab\there']),
                         'cmd': rng.choice([None, None, 'DATA', 'RCPT', 'a"b'])}
             if what == 'ext':
                 name = rng.choice(['SIZE', 'AUTH', '8BITMIME', 'X-Foo', 'pipelining', 'A1-b', 'STARTTLS'])
-                param = rng.choice([None, None, '1000', 'PLAIN LOGIN', 'a  b', '=x', 'x' * 30])
+                param = rng.choice([None, None, '', '1000', 'PLAIN LOGIN', 'a  b', '=x', 'x' * 30])
                 pad = rng.choice(['', '', ' ', '  \t'])
                 return {'kind': 'unit', 'what': 'ext', 'name': name, 'param': param, 'pad': pad}
             if what == 'b64':
@@ -192,7 +199,7 @@ class RecQueue(object):
         from slimta.smtp.reply import Reply
         h, b = envelope.flatten()
         self.got.append({'sender': envelope.sender, 'rcpts': list(envelope.recipients), 'data': h + b,
-                         'auth': (envelope.client or {}).get('auth')})
+                         'auth': (envelope.client or {}).get('auth'), 'ehlo': (envelope.client or {}).get('name')})
         v = self.verdict
         if v == '250':
             return [(envelope, 'id%d' % len(self.got))]
@@ -813,12 +820,55 @@ def run_unit(case, model):
             hits.append(hit('c06.http-reply-code-changed', 'the reply code the HTTP edge wrote is not the code the relay reads', observed=getattr(back, 'code', None), expected=case['code']))
         key = ('unit', 'xreply', case['code'], case['msg'], case['cmd'])
         return CaseResult(mismatch, hits, key, ['unit-xreply'])
+    if w == 'wsgiraw':
+        # requests the relay would not write: no recipient header, no X-Ehlo header, a Content-Length shorter than the body (the edge
+        # must cut there). The real WsgiEdge is called as a WSGI application; what it hands the queue vs HttpHop.edgeEnvelope.
+        import io
+        from slimta.edge.wsgi import WsgiEdge
+        q = RecQueue('250')
+        edge = WsgiEdge(q, hostname='edge.example')
+        data = bytes.fromhex(case['data'])
+        b64 = lambda x: base64.b64encode(x.encode('utf-8')).decode()
+        cl = len(data)
+        for o in case['opts']:
+            if o.startswith('cl='):
+                cl = int(o[3:])
+        environ = {'REQUEST_METHOD': 'POST', 'PATH_INFO': '/', 'CONTENT_TYPE': 'message/rfc822', 'CONTENT_LENGTH': str(cl),
+                   'wsgi.input': io.BytesIO(data), 'REMOTE_ADDR': '1.2.3.4', 'wsgi.url_scheme': 'http',
+                   'HTTP_X_ENVELOPE_SENDER': b64(case['sender'])}
+        if 'noehlo' not in case['opts']:
+            environ['HTTP_X_EHLO'] = 'relay.example'
+        if 'norcpt' not in case['opts']:
+            environ['HTTP_X_ENVELOPE_RECIPIENT'] = ', '.join(b64(r) for r in case['rcpts'])
+        box = {}
+        try:
+            edge(environ, lambda status, headers: box.setdefault('status', status))
+        except BaseException as e:
+            box['exc'] = type(e).__name__
+        hx_ = lambda b: b.hex() or '-'
+        ml = model.ask('wire edgeenv %s %s %s %s %s %s' % (hx_(b'[1.2.3.4]'), ','.join(case['opts']) or '-', hx_(b'relay.example'), hx_(case['sender'].encode('utf-8')),
+                                                         ','.join(hx_(r.encode('utf-8')) if r else '_' for r in case['rcpts']) or '-', hx_(data)))
+        if q.got:
+            g = q.got[-1]
+            # the queue gets the flattened envelope: compare what the edge read (sender, recipients) and the message it parsed
+            from slimta.envelope import Envelope
+            ref = Envelope('x', ['y'])
+            ref.parse(data[:cl])
+            rh, rb = ref.flatten()
+            impl = '%s %s %s %s' % (hx_((g.get('ehlo') or '').encode('utf-8')), hx_(g['sender'].encode('utf-8')), ','.join(hx_(r.encode('utf-8')) if r else '_' for r in g['rcpts']) or '-', 'data-as-cut' if g['data'] == rh + rb else 'DATA-DIFFERS')
+            parts = ml.split(' ')
+            want = ('%s %s %s %s' % (parts[0], parts[1], parts[2], 'data-as-cut' if len(parts) == 4 and parts[3] == hx_(data[:cl]) else 'model-data:' + parts[-1])) if len(parts) == 4 else ml
+            if impl != want:
+                mismatch = {'op': 'wire edgeenv', 'impl': impl, 'model': want, 'opts': case['opts'], 'status': box}
+        elif ml != 'error':
+            mismatch = {'op': 'wire edgeenv', 'impl': 'nothing enqueued: %r' % box, 'model': ml, 'opts': case['opts']}
+        return CaseResult(mismatch, hits, ('unit', 'wsgiraw', tuple(case['opts']), case['sender'], tuple(case['rcpts']), case['data']), ['unit-wsgiraw'] + ['wsgiraw:' + o.split('=')[0] for o in case['opts']])
     if w == 'ext':
         e = Extensions()
         e.add(case['name'], case['param'])
         built = e.build_string('hello')
         line = built.split('\r\n')[1]
-        mb = model.ask('wire extline %s %s' % (case['name'].upper().encode().hex(), 'none' if case['param'] is None else case['param'].encode().hex()))
+        mb = model.ask('wire extline %s %s' % (case['name'].upper().encode().hex(), 'none' if case['param'] is None else (case['param'].encode().hex() or '-')))
         if bytes.fromhex(mb).decode() != line:
             mismatch = {'op': 'wire extline', 'impl': line, 'model': bytes.fromhex(mb).decode()}
         padded = case['pad'] + line + case['pad']
@@ -833,7 +883,16 @@ def run_unit(case, model):
             mgot = [(bytes.fromhex(n).decode(), None if p == 'none' else bytes.fromhex(p).decode())]
         if got != mgot and mismatch is None:
             mismatch = {'op': 'wire parseext', 'impl': got, 'model': mgot, 'line': padded}
-        want = [(case['name'].upper(), case['param'])]
+        # ... and the line as a server may write it: the name in its own letter case
+        raw = case['pad'] + case['name'] + ((' ' + case['param']) if case['param'] else '') + case['pad']
+        e3 = Extensions()
+        e3.parse_string('hello\r\n' + raw)
+        got3 = list(e3.extensions.items())
+        mp3 = model.ask('wire parseext %s' % (raw.encode().hex() or '-'))
+        mgot3 = [] if mp3 == 'nomatch' else [(bytes.fromhex(mp3.split(' ')[0]).decode(), None if mp3.split(' ')[1] == 'none' else bytes.fromhex(mp3.split(' ')[1]).decode())]
+        if got3 != mgot3 and mismatch is None:
+            mismatch = {'op': 'wire parseext (name as written)', 'impl': got3, 'model': mgot3, 'line': raw}
+        want = [(case['name'].upper(), case['param'] or None)]
         if got != want or hdr != 'hello':
             hits.append(hit('c06.extension-line-not-round-tripped', 'an extension does not survive build_string / parse_string', observed=got, expected=want))
     elif w == 'b64':
